@@ -159,6 +159,22 @@ def check(ctx):
                         if got.shape != kr.shape or np.abs(got - np.where(np.abs(kr) > 1e-10, kr, 0)).max() > 1e-12:
                             ctx.fail("oracle", f"C14/oracle/r_reps/O{kk}", f"{sc['name']}/{dname}/{sname}: {cls.__name__}.r_reps[{i}] is not the {kk}-fold Kronecker power of R = L r L^-1 (operation {ui})", replay={**rep, "op": int(ui)}, has_input=True)
                             break
+                    if kk == 1 and N <= 6:
+                        # the matrix-representation variant of order 2: sigma2 = permutation matrix of atom pairs, r_reps = R x R
+                        from symfc.spg_reps.spg_reps_O2 import SpgRepsO2MatrixReps
+                        try:
+                            rm = SpgRepsO2MatrixReps(at, spacegroup_operations=given)
+                            for i, ui in enumerate(rm.unique_rotation_indices):
+                                S2 = rm.get_sigma2_rep(i).toarray()
+                                Pm = np.zeros((N, N))
+                                Pm[perms[ui], np.arange(N)] = 1
+                                rc = L.T @ r_use[ui] @ np.linalg.inv(L.T)
+                                k2 = np.kron(rc, rc)
+                                if not np.array_equal(S2, np.kron(Pm, Pm)) or np.abs(rm.r_reps[i].toarray() - np.where(np.abs(k2) > 1e-10, k2, 0)).max() > 1e-12:
+                                    ctx.fail("oracle", "C14/oracle/matrix-reps/O2", f"{sc['name']}/{dname}/{sname}: SpgRepsO2MatrixReps: sigma2 / r_reps of operation {ui} are not P x P / R x R", replay={**rep, "op": int(ui)}, has_input=True)
+                                    break
+                        except Exception as e:  # noqa: BLE001
+                            ctx.fail("oracle", "C14/oracle/raised", f"{sc['name']}/{dname}/{sname}: SpgRepsO2MatrixReps raised {type(e).__name__}: {e}", replay=rep, has_input=True)
                     if kk == 1:
                         for i, ui in enumerate(rk.unique_rotation_indices):
                             S = rk.get_sigma1_rep(i).toarray()
